@@ -338,7 +338,9 @@ def _serve_once(c, port):
     t.start()
     cond, serves = model(c)
     answered = False
-    deadline = time.time() + (5 if serves else 0.6)
+    # until the manager either serves or its thread ends (the allowance only bounds a manager
+    # that does neither)
+    deadline = time.time() + 60
     while time.time() < deadline:
         if srv.server is not None:
             try:
@@ -422,7 +424,10 @@ def run_program(c):
         argv.append("--version-one")
     cond, serves = model(cc)
     mark = len(w.log)
-    res = managers.run_manager(plat, argv, {"PIN": PIN.decode()}, w, expect_serve=serves)
+    # the PIN in the environment is the configured default: the device's PIN when there is no
+    # file to take it from, something else when there is (the file is what counts then)
+    env_pin = PIN.decode() if c["file"] == "absent" else "envp9999"
+    res = managers.run_manager(plat, argv, {"PIN": env_pin}, w)
     mw.check_sim(w)
     unlocks, pin_sends, apdus = observe(w)
     desc = dict(c)
